@@ -1869,6 +1869,46 @@ def flatten_model_stream(ctx, cirq, n):
             ctx.violation('flatten:tuple', f'cirq.flatten({tup!r}): {bad}', dict(kind='flatten_tuple', exprs=[sympy_srepr(x) if isinstance(x, sympy.Basic) else x for x in tup]))
 
 
+# ---- to_resolvers / to_sweeps on mixed sweepables -------------------------------------------------------
+def sweepable_stream(ctx, cirq, n):
+    """cirq.to_resolvers of nested lists of sweeps, dictionaries, resolvers and None = the concatenation of what each part
+    enumerates (spec-level comparison with the reference semantics of the parts)."""
+    rng = ctx.rng
+
+    def gen(depth):
+        r = rng.random()
+        if depth > 0 and r < 0.25:
+            parts = [gen(depth - 1) for _ in range(rng.choice([0, 1, 2, 3]))]
+            return [p[0] for p in parts], [x for p in parts for x in p[1]]
+        if r < 0.45:
+            d = {k: draw_value(rng) for k in rng.sample(KEYS[:4], rng.choice([0, 1, 2]))}
+            return (cirq.ParamResolver(d) if rng.random() < 0.5 else d), [list(d.items())]
+        if r < 0.55:
+            return None, [[]]
+        for _ in range(20):
+            t = gen_sweep(rng, rng.choice([0, 1, 2]), rng.sample(KEYS[:4], rng.choice([1, 2])), allow_invalid=False)
+            try:
+                return build_sweep(cirq, t), [[(k, v) for k, v in row] for row in ref_iter(t)]
+            except ValueError:
+                continue
+        return None, [[]]
+    for _ in range(n):
+        parts = [gen(2) for _ in range(rng.choice([1, 2, 3]))]
+        obj = [p[0] for p in parts]
+        want = [x for p in parts for x in p[1]]
+        if rng.random() < 0.2 and len(parts) == 1:
+            obj = obj[0]
+        try:
+            got = [dict_items(r) for r in cirq.to_resolvers(obj)]
+            ok = rows_equal(got, want, LIN_TOL)
+        except Exception as ex:
+            got, ok = f'{type(ex).__name__}: {ex}', False
+        ctx.count('to_resolvers', repr(obj), len(want) >= 2, sample=dict(sweepable=repr(obj)[:300], resolvers=len(want)))
+        if not ok:
+            ctx.disagree('differential:to_resolvers', repr(obj)[:300], 'sweepable:to_resolvers',
+                         f'cirq.to_resolvers({obj!r}) = {got}, its parts enumerate {want}'[:900], dict(kind='sweepable', sweepable=repr(obj)))
+
+
 def run(ctx):
     cirq = env.import_cirq()
     ctx.rule = ('sweep: random trees over Unit/Points/Linspace/ListSweep leaves and Product/Zip/ZipLongest/Concat nodes, nesting <= 3, empty, '
@@ -1889,6 +1929,7 @@ def run(ctx):
     ctx.set_obligations(coq.compile_props('C10'))
     quick = ctx.tier == 'quick'
     sweep_stream(ctx, cirq, 400 if quick else 4000)
+    sweepable_stream(ctx, cirq, 100 if quick else 1000)
     resolver_stream(ctx, cirq, 300 if quick else 3000)
     compose_stream(ctx, cirq, 120 if quick else 1500)
     flatten_model_stream(ctx, cirq, 120 if quick else 1500)
